@@ -55,8 +55,8 @@ func genLoadCase(t *rapid.T) loadCase {
 	var c loadCase
 	c.Cfg = gen.AsmCfg(rapid.IntRange(0, 2).Draw(t, "dialect") == 0).Draw(t, "cfg")
 	maxLen := 20
-	if hx.Thorough() && rapid.IntRange(0, 9).Draw(t, "long") == 0 {
-		maxLen = 300
+	if rapid.IntRange(0, 29).Draw(t, "long") == 0 {
+		maxLen = 400
 	}
 	if int64(maxLen) > c.Cfg.Length {
 		maxLen = int(c.Cfg.Length)
@@ -115,7 +115,7 @@ func judgeLoadCase(c loadCase, rec *hx.Rec) string {
 	return ""
 }
 
-const c09Rule = "rapid draws a warrior (length 1..20, thorough up to 300; every form legal in the dialect; fields across [0,M) incl. M/2, M/2+1, M-1; every entry point), a core size and a layout: our printer writes the canonical load file ('94: ORG n + OP.MOD lines [+ END]; '88: OP lines + END n) with fields printed as f or f-M and any subset of {case, extra blanks/tabs, CR-LF, blank lines, comment lines and end-of-line comments, metadata comments, trailing comment line, final newline dropped}; ParseLoadFile and CompileWarrior of that text must both reproduce code and entry point. Non-trivial: >= 2 instructions, non-zero entry or signed spelling, and at least one perturbation; distinct by case hash."
+const c09Rule = "rapid draws a warrior (length 1..20, one in thirty up to 400; every form legal in the dialect; fields across [0,M) incl. M/2, M/2+1, M-1; every entry point), a core size and a layout: our printer writes the canonical load file ('94: ORG n + OP.MOD lines [+ END]; '88: OP lines + END n) with fields printed as f or f-M and any subset of {case, extra blanks/tabs, CR-LF, blank lines, comment lines and end-of-line comments, metadata comments, trailing comment line, final newline dropped}; ParseLoadFile and CompileWarrior of that text must both reproduce code and entry point. Non-trivial: >= 2 instructions, non-zero entry or signed spelling, and at least one perturbation; distinct by case hash."
 
 func TestC09(t *testing.T) {
 	hx.Run(t, hx.Prop[loadCase]{
